@@ -258,6 +258,13 @@ def run(facts):
                               and (t["func"].get("fn") or {}).get("path", "").startswith("core::hash")]
                     if others:
                         raise ValueError("additional hasher writes")
+                    # ... on every path: a return that by-passes the call (an "empty" fast path) feeds the hasher nothing, while the slice
+                    # impl always writes the length prefix
+                    from .flow import cfg_of
+                    cfg_ = cfg_of(b)
+                    rets = [i for i, blk in enumerate(b.blocks) if blk["term"]["k"] == "return" and not blk["cleanup"]]
+                    if not all(cfg_.dominates(bi, r) for r in rets):
+                        raise ValueError("a path returns without hashing: the result differs from <[u8] as Hash>::hash for the values that take it")
                     res.ok(key, loc, "<[u8] as Hash>::hash(view(self))")
                 elif m == "borrow":
                     b = facts.by_did[it["did"]]
